@@ -5,9 +5,19 @@
   Coordinates range over an arbitrary ordered field (exact arithmetic); the square root used to
   size the pruning box is only assumed to be an upper bound (`SqrtUp`), so the results do not
   depend on its rounding direction as long as it does not round below.  `Spec` (in
-  C11Lemmas.lean) is the ten-line plain-list specification.
+  C11Tree.lean) is the ten-line plain-list specification; its boxes are written with explicit
+  inequalities (`inBox`), independent of the model's own `Bound.contains`.
+
+  WHAT THE THEOREMS DO NOT COVER.  They are about exact arithmetic with an upper-bound square root.
+  The Float twin that the correspondence run samples uses float64 arithmetic and the hardware
+  square root, which can round BELOW the true root (`Float.sqrt 3` squared is less than 3), so
+  `SqrtUp` does not hold for it: the twin is tied to the Go code bit for bit, and to these theorems
+  only by sharing the definitions.  The searches of the code start from the limit
+  `math.MaxFloat64`; `*_from_limit_spec` below carry the refinement over to that start for every
+  tree whose accepted pointers are nearer than the limit.
 -/
 import OrbProofs.C11Lemmas
+import OrbProofs.C11From
 import Mathlib.Tactic.Linarith
 import Mathlib.Algebra.Order.Field.Rat
 
@@ -55,12 +65,103 @@ theorem remove_nodes_le (sqrt : α → α) (q : QT α) (pt : Pt α) (eq : Ptr α
 theorem history_refines (sqrt : α → α) (hs : SqrtUp sqrt) (b : Bound α) (ops : List (Op α)) :
     Trace sqrt ⟨b, .nil⟩ ops := history_refines' sqrt hs b ops
 
-/-- Non-vacuity: `SqrtUp` is satisfiable over ℚ-like fields by any upper bound, e.g. `x ↦ x + 1`;
-    and a concrete history exercises add / remove / k-nearest. -/
-example : SqrtUp (fun x : ℚ => x + 1) := by
+/-! ### the vocabulary of `Spec`, made explicit -/
+
+/-- The add clause: a pointer is accepted exactly when its point lies in the closed tree bound —
+    stated with the four inequalities, not with the model's own test. -/
+theorem add_accepts_iff_in_closed_bound (q : QT α) (p : Ptr α) :
+    (add q p).2 = true ↔
+      (q.bound.lo.x ≤ p.p.x ∧ p.p.x ≤ q.bound.hi.x ∧ q.bound.lo.y ≤ p.p.y ∧ p.p.y ≤ q.bound.hi.y) := by
+  have h : (add q p).2 = q.bound.contains p.p := by
+    unfold add; cases q.bound.contains p.p <;> rfl
+  rw [h, contains_eq_inBox]; simp [inBox]
+
+/-- The distance limit of k-nearest: the property text says "strictly within the optional distance
+    limit" and is silent about a negative limit; the code squares the limit, so a limit `m` means
+    "distance `< |m|`" (`s` is any non-negative number whose square is the squared distance). -/
+theorem limit_is_absolute (pt : Pt α) (m s : α) (x : Ptr α) (hs : 0 ≤ s) (hss : s * s = distSq x.p pt) :
+    within pt (some m) x = true ↔ s < |m| := within_iff_lt_abs pt m s x hs hss
+
+theorem limit_neg (pt : Pt α) (m : α) (x : Ptr α) : within pt (some (-m)) x = within pt (some m) x :=
+  within_neg pt m x
+
+/-! ### the searches as the code starts them (`minDistSquared: math.MaxFloat64`) -/
+
+/-- `Find` / `Matching` started from the limit `M`: the refinement holds whenever every accepted stored
+    pointer is nearer than `M` (for float64 and `M = MaxFloat64`: no squared distance overflows). -/
+theorem matching_from_limit_spec (M : α) (sqrt : α → α) (hs : SqrtUp sqrt) (q : QT α) (pt : Pt α)
+    (f : Ptr α → Bool) (h : QInv q) (hM : ∀ y ∈ contents q.root, f y = true → distSq y.p pt < M) :
+    Spec q.bound (contents q.root) (.matching pt f) (.ptr (matchingFrom (some M) sqrt q pt f)) (contents q.root) :=
+  matchingFrom_spec' M sqrt hs q pt f h hM
+
+theorem remove_from_limit_spec (M : α) (sqrt : α → α) (hs : SqrtUp sqrt) (q : QT α) (pt : Pt α)
+    (eq : Ptr α → Bool) (h : QInv q) (hM : ∀ y ∈ contents q.root, eq y = true → distSq y.p pt < M) :
+    Spec q.bound (contents q.root) (.remove pt eq) (.flag (removeFrom (some M) sqrt q pt eq).2)
+      (contents (removeFrom (some M) sqrt q pt eq).1.root) ∧ QInv (removeFrom (some M) sqrt q pt eq).1 :=
+  removeFrom_spec' M sqrt hs q pt eq h hM
+
+theorem kNearest_from_limit_spec (M : α) (sqrt : α → α) (hs : SqrtUp sqrt) (q : QT α) (pt : Pt α) (k : Nat)
+    (f : Ptr α → Bool) (md : Option α) (h : QInv q)
+    (hM : md = none → ∀ y ∈ contents q.root, f y = true → distSq y.p pt < M) :
+    Spec q.bound (contents q.root) (.kNearest pt k f md) (.ptrs (kNearestFrom (some M) sqrt q pt k f md))
+      (contents q.root) := kNearestFrom_spec' M sqrt hs q pt k f md h hM
+
+/-- Outside that hypothesis (listed under `partial`): a one-pointer tree whose pointer is at squared
+    distance `≥ M` — `Find` started from `M` answers nil on a non-empty tree. -/
+theorem find_from_limit_skips_far (M : α) (sqrt : α → α) (b : Bound α) (x : Ptr α) (pt : Pt α)
+    (hfar : ¬ distSq x.p pt < M) (hin : ¬ miss (rootCell b) b) :
+    matchingFrom (some M) sqrt ⟨b, .node (some x) .nil .nil .nil .nil⟩ pt (fun _ => true) = none :=
+  matchingFrom_skips_far M sqrt b x pt hfar hin
+
+/-! ### non-vacuity -/
+
+/-- `SqrtUp` is satisfiable over ℚ by any upper bound, e.g. `x ↦ x + 1`. -/
+theorem sqrtUp_succ : SqrtUp (fun x : ℚ => x + 1) := by
   intro x hx
   constructor
   · linarith
   · nlinarith
+
+/-- the answers of a history as id lists (`[1]` / `[0]` for a flag, `[]` for nil) -/
+def outIds : Out ℚ → List Nat
+  | .flag b => [if b then 1 else 0]
+  | .ptr none => []
+  | .ptr (some p) => [p.id]
+  | .ptrs l => l.map (·.id)
+
+def runIds (sqrt : ℚ → ℚ) : QT ℚ → List (Op ℚ) → List (List Nat)
+  | _, [] => []
+  | q, op :: rest => outIds (step sqrt q op).2 :: runIds sqrt (step sqrt q op).1 rest
+
+/-- A concrete history over ℚ on the tree bound [-10,10]²: removal before any add; adds on both root
+    midlines, of a duplicate point, outside the bound, of the SAME pointer twice, of a non-dyadic
+    point on the bound; k-nearest with k beyond / a negative limit / k = 0; removal with an `eq`
+    accepting several pointers at different distances; filtered find; in-bound with a proper and an
+    inverted box; removal of an absent pointer; removal of one of two copies. -/
+def exOps : List (Op ℚ) := [
+  .remove ⟨0, 0⟩ (fun _ => true),
+  .add ⟨1, ⟨0, 0⟩⟩, .add ⟨2, ⟨5, 5⟩⟩, .add ⟨3, ⟨5, 5⟩⟩, .add ⟨4, ⟨11, 0⟩⟩, .add ⟨1, ⟨0, 0⟩⟩,
+  .add ⟨5, ⟨1/3, -10⟩⟩,
+  .kNearest ⟨1, 1⟩ 2 (fun _ => true) none,
+  .kNearest ⟨4, 4⟩ 3 (fun _ => true) (some (-2)),
+  .kNearest ⟨4, 4⟩ 0 (fun _ => true) none,
+  .remove ⟨4, 4⟩ (fun x => x.id % 2 == 1),
+  .matching ⟨4, 4⟩ (fun x => x.id % 2 == 1),
+  .inBound ⟨⟨0, 0⟩, ⟨10, 10⟩⟩ (fun _ => true),
+  .inBound ⟨⟨10, 10⟩, ⟨0, 0⟩⟩ (fun _ => true),
+  .remove ⟨7, 7⟩ (fun x => x.id == 9),
+  .remove ⟨0, 0⟩ (fun x => x.id == 1),
+  .matching ⟨-3, 2⟩ (fun _ => true)]
+
+/-- … its answers, computed by the model over ℚ with the upper-bound root `x + 1` … -/
+theorem example_history_answers :
+    runIds (fun x => x + 1) ⟨⟨⟨-10, -10⟩, ⟨10, 10⟩⟩, .nil⟩ exOps =
+      [[0], [1], [1], [1], [0], [1], [1], [1, 1], [2, 3], [], [1], [1], [1, 1, 2], [], [0], [1], [1]] := by
+  decide +kernel
+
+/-- … and the refinement theorem instantiated on it (every one of these answers is one the plain list
+    allows). -/
+example : Trace (fun x : ℚ => x + 1) ⟨⟨⟨-10, -10⟩, ⟨10, 10⟩⟩, .nil⟩ exOps :=
+  history_refines _ sqrtUp_succ _ exOps
 
 end Orb.Quadtree
